@@ -50,6 +50,8 @@ type Contract struct {
 	Reveal    []string
 	Lets      map[string]ast.Expr
 	Assumes   []*Clause // trusted postconditions: assumed at call sites, never proved, listed in the evidence
+	Globals   []string  // `globals a.X b.Y`: the only package-level variables the function may write (transitively)
+	HasGlobals bool
 	Defines   []*Clause // conservative definitions of otherwise uninterpreted predicates: assumed at entry of the function
 }
 
@@ -363,6 +365,11 @@ func (e *Engine) parseContractFile(file, pkg string) error {
 			cur.Lets[strings.TrimSpace(rest[:i])] = ex
 		case "inline":
 			cur.Inline = true
+		case "globals":
+			cur.HasGlobals = true
+			for _, g := range strings.Fields(rest) {
+				cur.Globals = append(cur.Globals, "G_"+sanitize(strings.Replace(g, ".", "_", 1)))
+			}
 		case "reveal":
 			cur.Reveal = append(cur.Reveal, strings.Fields(rest)...)
 		case "trusted":
@@ -1385,7 +1392,8 @@ func (e *Engine) exprText(x ast.Expr) string {
 
 var _ = ssa.Function{}
 
-var ioAlias = map[string]string{"stdoutN": "G_io_OutN", "stdout": "G_io_Out", "stderrN": "G_io_ErrN", "stderr": "G_io_Err",
+var ioAlias = map[string]string{"delivered": "G_io_Delivered", "inLines": "G_io_InLines", "lastUnterminated": "G_io_LastUnterminated",
+	"stdoutN": "G_io_OutN", "stdout": "G_io_Out", "stderrN": "G_io_ErrN", "stderr": "G_io_Err",
 	"exited": "G_io_Exited", "exitCode": "G_io_ExitCode", "stdinPos": "G_io_InPos"}
 
 type ctorSig struct {
